@@ -258,3 +258,6 @@ func ZZ_C18_flags() {
 	zzvAssert("documented-subflags", FlagZeroCountVarFloat.byte == 1<<2 && FlagCount.byte == 0x28<<2 && FlagSum.byte == 0x21<<2 && FlagMin.byte == 0x22<<2 && FlagMax.byte == 0x23<<2 &&
 		BinEncodingIndexDeltasAndCounts.byte == 1<<2 && BinEncodingIndexDeltas.byte == 2<<2 && BinEncodingContiguousCounts.byte == 3<<2)
 }
+
+// C08 rests on the primitive decoders being total: no byte string makes one panic (round 2)
+func ZZ_C08_primitive_decoders_never_panic() { ZZ_C18_arbitrary_input() }
